@@ -1062,6 +1062,21 @@ func (d *duration) Apply(key string, value interface{}, ctx *rdf.ParsingContext)
 								),
 							),
 							jen.Commentf("Assume 8760 Hours per 365 days, cannot account for leap years in xsd:duration. :("),
+							jen.If(
+								jen.Id("vYear").Op(">").Parens(
+									jen.Qual("math", "MaxInt64").Op("-").Int64().Call(jen.Id("dur")),
+								).Op("/").Int64().Call(
+									jen.Qual("time", "Hour").Op("*").Lit(8760),
+								),
+							).Block(
+								jen.Return(
+									jen.Lit(0),
+									jen.Qual("fmt", "Errorf").Call(
+										jen.Lit("%s is too large for the time.Duration of xsd:duration"),
+										jen.Id("s"),
+									),
+								),
+							),
 							jen.Id("dur").Op("+=").Qual("time", "Duration").Call(
 								jen.Id("vYear"),
 							).Op("*").Qual("time", "Hour").Op("*").Lit(8760),
@@ -1096,6 +1111,21 @@ func (d *duration) Apply(key string, value interface{}, ctx *rdf.ParsingContext)
 								),
 							),
 							jen.Commentf("Assume 30 days per month, cannot account for months lasting 31, 30, 29, or 28 days in xsd:duration. :("),
+							jen.If(
+								jen.Id("vMonth").Op(">").Parens(
+									jen.Qual("math", "MaxInt64").Op("-").Int64().Call(jen.Id("dur")),
+								).Op("/").Int64().Call(
+									jen.Qual("time", "Hour").Op("*").Lit(720),
+								),
+							).Block(
+								jen.Return(
+									jen.Lit(0),
+									jen.Qual("fmt", "Errorf").Call(
+										jen.Lit("%s is too large for the time.Duration of xsd:duration"),
+										jen.Id("s"),
+									),
+								),
+							),
 							jen.Id("dur").Op("+=").Qual("time", "Duration").Call(
 								jen.Id("vMonth"),
 							).Op("*").Qual("time", "Hour").Op("*").Lit(720),
@@ -1127,6 +1157,21 @@ func (d *duration) Apply(key string, value interface{}, ctx *rdf.ParsingContext)
 								jen.Return(
 									jen.Lit(0),
 									jen.Err(),
+								),
+							),
+							jen.If(
+								jen.Id("vDay").Op(">").Parens(
+									jen.Qual("math", "MaxInt64").Op("-").Int64().Call(jen.Id("dur")),
+								).Op("/").Int64().Call(
+									jen.Qual("time", "Hour").Op("*").Lit(24),
+								),
+							).Block(
+								jen.Return(
+									jen.Lit(0),
+									jen.Qual("fmt", "Errorf").Call(
+										jen.Lit("%s is too large for the time.Duration of xsd:duration"),
+										jen.Id("s"),
+									),
 								),
 							),
 							jen.Id("dur").Op("+=").Qual("time", "Duration").Call(
@@ -1162,6 +1207,21 @@ func (d *duration) Apply(key string, value interface{}, ctx *rdf.ParsingContext)
 									jen.Err(),
 								),
 							),
+							jen.If(
+								jen.Id("vHour").Op(">").Parens(
+									jen.Qual("math", "MaxInt64").Op("-").Int64().Call(jen.Id("dur")),
+								).Op("/").Int64().Call(
+									jen.Qual("time", "Hour"),
+								),
+							).Block(
+								jen.Return(
+									jen.Lit(0),
+									jen.Qual("fmt", "Errorf").Call(
+										jen.Lit("%s is too large for the time.Duration of xsd:duration"),
+										jen.Id("s"),
+									),
+								),
+							),
 							jen.Id("dur").Op("+=").Qual("time", "Duration").Call(
 								jen.Id("vHour"),
 							).Op("*").Qual("time", "Hour"),
@@ -1195,6 +1255,21 @@ func (d *duration) Apply(key string, value interface{}, ctx *rdf.ParsingContext)
 									jen.Err(),
 								),
 							),
+							jen.If(
+								jen.Id("vMinute").Op(">").Parens(
+									jen.Qual("math", "MaxInt64").Op("-").Int64().Call(jen.Id("dur")),
+								).Op("/").Int64().Call(
+									jen.Qual("time", "Minute"),
+								),
+							).Block(
+								jen.Return(
+									jen.Lit(0),
+									jen.Qual("fmt", "Errorf").Call(
+										jen.Lit("%s is too large for the time.Duration of xsd:duration"),
+										jen.Id("s"),
+									),
+								),
+							),
 							jen.Id("dur").Op("+=").Qual("time", "Duration").Call(
 								jen.Id("vMinute"),
 							).Op("*").Qual("time", "Minute"),
@@ -1226,6 +1301,21 @@ func (d *duration) Apply(key string, value interface{}, ctx *rdf.ParsingContext)
 								jen.Return(
 									jen.Lit(0),
 									jen.Err(),
+								),
+							),
+							jen.If(
+								jen.Id("vSecond").Op(">").Parens(
+									jen.Qual("math", "MaxInt64").Op("-").Int64().Call(jen.Id("dur")),
+								).Op("/").Int64().Call(
+									jen.Qual("time", "Second"),
+								),
+							).Block(
+								jen.Return(
+									jen.Lit(0),
+									jen.Qual("fmt", "Errorf").Call(
+										jen.Lit("%s is too large for the time.Duration of xsd:duration"),
+										jen.Id("s"),
+									),
 								),
 							),
 							jen.Id("dur").Op("+=").Qual("time", "Duration").Call(
